@@ -334,8 +334,16 @@ func checkC12(c *Ctx) error {
 	// how many -i flags there are is input too: 9, 10, 11, 16, 17, 99, 100, 101 patterns (files, wildcards, patterns matching
 	// nothing), with and without --quiet
 	for _, np := range []int{4, 9, 10, 11, 16, 17, 99, 100, 101} {
-		for variant := 0; variant < 3; variant++ {
+		for variant := 0; variant < 4; variant++ {
 			var fs, pats []string
+			if variant == 3 {
+				// one wildcard matching all of them (17, 33, 100 files read through a single pattern)
+				for k := 0; k < np; k++ {
+					fs = append(fs, fmt.Sprintf("parameters:\n  p%d: %d\n", k, k))
+				}
+				jobs = append(jobs, job{fs, []string{"f*.yaml"}, flagSets[(np+variant)%len(flagSets)], "many-files-one-pattern", 0})
+				continue
+			}
 			for k := 0; k < np; k++ {
 				switch {
 				case variant == 1 && k%3 == 1:
